@@ -2,7 +2,7 @@
   Line-protocol driver: one command per input line, one result per output line.
   Fields are TAB-separated; every string field is hex-encoded UTF-8 ("-" = empty).
 -/
-import Blackbird.Encode
+import Blackbird.Decode
 import Blackbird.Load
 
 open Blackbird
@@ -18,6 +18,25 @@ def encLoadResult (r : Except Err (Program Float)) : String :=
   | .ok p => encProgram p
   | .error e => encErr e
 
+def withProgram (h : String) (k : Program Float → String) : String :=
+  match sxParse h with
+  | none => "bad-sx"
+  | some x => match decProgram x with
+              | none => "bad-program"
+              | some p => k p
+
+def encDumps (p : Program Float) : String :=
+  match serialize p with
+  | .ok ls => encLines ls
+  | .error e => encErr e
+
+/-- a history of `loads` calls in one process: tables threaded from call to call -/
+def runHistory (fs : FS) : List String → Tables Float → List String → List String
+  | [], _, acc => acc.reverse
+  | t :: ts, T, acc =>
+    let (r, T') := loadsText fs T t
+    runHistory fs ts T' (encLoadResult r :: acc)
+
 def handle (line : String) : String :=
   match line.splitOn "\t" with
   | cmd :: fields =>
@@ -31,6 +50,29 @@ def handle (line : String) : String :=
         encLoadResult (loadsText (mkFS procCwd (pairs files)) Tables.empty text).1
       | "LOAD", filename :: procCwd :: files =>
         encLoadResult (loadFile (mkFS procCwd (pairs files)) Tables.empty filename).1
+      | "LDUMPS", text :: procCwd :: files =>
+        match (loadsText (mkFS procCwd (pairs files)) (Tables.empty : Tables Float) text).1 with
+        | .ok p => encDumps p
+        | .error e => encErr e
+      | "DUMPS", [prog] => withProgram prog encDumps
+      | "CALL", [prog, kw] =>
+        withProgram prog fun p =>
+          match sxParse kw with
+          | none => "bad-sx"
+          | some k => match decKw k with
+                      | none => "bad-kw"
+                      | some kwargs => encLoadResult (instantiate p kwargs)
+      | "GRAPH", [prog] =>
+        withProgram prog fun p =>
+          let (g, p') := toDiGraph p
+          encGraph g ++ " " ++ encProgram p'
+      | "MATCH", [tmpl, prog] =>
+        withProgram tmpl fun t => withProgram prog fun p =>
+          match (matchTemplate t p).1 with
+          | .ok am => encKw am
+          | .error e => encErr e
+      | "HIST", procCwd :: texts =>
+        " ;; ".intercalate (runHistory (mkFS procCwd []) texts Tables.empty [])
       | _, _ => "bad-op"
   | [] => "bad-op"
 
